@@ -172,8 +172,8 @@ class LArr(ndarray):
                     specs.append(('slice', n - 1, n, -1))
                 else:
                     raise Inconclusive('lambda array: slice step %r' % (step,))
-            elif isinstance(k, (list, ndarray, _np.ndarray)):
-                ka = snp.asarray(k)
+            elif isinstance(k, (list, tuple, ndarray, _np.ndarray)):
+                ka = snp.asarray(list(k) if isinstance(k, tuple) else k)
                 if ka.dtype.kind == 'b':
                     m = [_b.bool(v) for v in ka.a.ravel().tolist()]
                     nn = _conc_dim(n)
